@@ -35,7 +35,7 @@ REQUIRED = dict(monitors=['deck-opaque-at-or-below-top', 'deck-zero-above', 'dec
                 classes=['deck:inside', 'deck:above-range', 'deck:below-range', 'deck:on-layer-pressure',
                          'flat:set', 'flat:unset', 'flat:inverted', 'flat:outside', 'flat:below-1Pa',
                          'lee:set', 'lee:unset', 'lee:inverted', 'lee:outside', 'nlayers:2', 'retune:deck',
-                         'retune:flat', 'retune:lee', 'retune:evaluation-after-write'])
+                         'retune:flat', 'retune:lee', 'retune:evaluation-after-write', 'retune:pressure-range-written'])
 
 
 def classify(f):
@@ -289,7 +289,8 @@ def wl_retune(ctx, rng):
     lev, lay = levels_of(spec)
     kind = ['deck', 'flat', 'lee'][rng.integers(0, 3)]
     lo, hi = np.log10(lev[-1]), np.log10(lev[0])
-    clear = base.run_model(ctx, base.realise(spec))
+    clear_model = base.realise(spec)
+    clear = base.run_model(ctx, clear_model)
     if clear is None:
         return
 
@@ -316,6 +317,25 @@ def wl_retune(ctx, rng):
     ctx.feature(summary=world.spec_summary(spec), retune=kind)
     rounds = int(rng.integers(2, 5))
     for r in range(rounds):
+        if r > 0 and rng.random() < 0.45 and spec['temperature']['kind'] != 'npoint':   # N-point nodes are tied to the range
+            # the pressure range of the model is written (atm_max_pressure / atm_min_pressure are fitting parameters):
+            # the layers move under an unchanged cloud top / haze window; the clear twin follows
+            sp = dict(spec, pmax=float(spec['pmax'] * 10 ** rng.uniform(-1, 1)), pmin=float(spec['pmin'] * 10 ** rng.uniform(-1, 1)))
+            if sp['pmax'] > 10 * sp['pmin'] and world.is_bound(sp):
+                spec = sp
+                for mdl in (model, clear_model):
+                    mdl['atm_max_pressure'] = spec['pmax']
+                    mdl['atm_min_pressure'] = spec['pmin']
+                lev, lay = levels_of(spec)
+                lo, hi = np.log10(lev[-1]), np.log10(lev[0])
+                clear = base.run_model(ctx, clear_model, build=False)
+                if clear is None:
+                    return
+                if kind != 'deck':
+                    cls = window_class(bottom, top, lev) if bottom >= 0 and top >= 0 else 'unset'
+                ctx.observe('retune:pressure-range-written')
+                if rng.random() < 0.5:
+                    r = -r          # only the grid moved: keep the cloud / haze parameters as they are
         if r > 0:
             if kind == 'deck':
                 pc = float(10 ** rng.uniform(lo - 1, hi + 1))
@@ -345,6 +365,7 @@ def wl_retune(ctx, rng):
         snap = base.run_model(ctx, model, build=(r == 0))
         if snap is None:
             return
+        r = abs(r)
         w = dict(evaluation=r, retune=kind)
         if kind == 'deck':
             judge_deck(ctx, clear, snap, np.array(model.pressureProfile, dtype=float), pc, **w)
